@@ -375,27 +375,37 @@ class XsdWildcard(XsdComponent):
             else:
                 self.not_namespace = other.not_namespace.copy()
                 self.not_namespace.add('')
-                self.not_namespace.add(other.target_namespace)
+                self.not_namespace.add(self.target_namespace)
                 self.namespace.clear()
             return
 
-        if self.namespace == other.namespace:
+        if '##any' in other.namespace:
             return
-        elif '##any' in other.namespace:
-            return
+        elif '##other' in other.namespace:
+            if '##any' in self.namespace or '##other' in self.namespace:
+                # The negation of a namespace is relative to the target
+                # namespace of the wildcard that declares it.
+                if other.target_namespace != self.target_namespace:
+                    self.not_namespace = {'', other.target_namespace}
+                    if '##other' in self.namespace:
+                        self.not_namespace.add(self.target_namespace)
+                    self.namespace.clear()
+                elif '##any' in self.namespace:
+                    self.namespace.clear()
+                    self.namespace.add('##other')
+            else:
+                self.namespace.discard(other.target_namespace)
+                self.namespace.discard('')
         elif '##any' in self.namespace:
             self.namespace.clear()
             self.namespace.update(other.namespace)
         elif '##other' in self.namespace:
             self.namespace.clear()
             self.namespace.update(other.namespace)
-            self.namespace.discard(other.target_namespace)
+            self.namespace.discard(self.target_namespace)
             self.namespace.discard('')
-        elif '##other' not in other.namespace:
-            self.namespace.intersection_update(other.namespace)
         else:
-            self.namespace.discard(other.target_namespace)
-            self.namespace.discard('')
+            self.namespace.intersection_update(other.namespace)
 
 
 class XsdAnyElement(XsdWildcard, ParticleMixin,
